@@ -26,6 +26,14 @@ CHECKS = {
          "Unreliable/TimeSensitive fragments appear at most once; a TimeSensitive packet is begun no later than the first step() after send(); nothing is emitted again in a call later than the one that processed its acknowledgement or the receiver's window passing the packet."),
  "C13": ("seeded DST; all-windows byte bound on the emitted data/sync/ack frames against ceiling x (interval + RTT estimate) + 1472", A,
          "Every window of up to 256 frames is checked exactly, longer ones by a running-minimum scan; the allowed rate is compared with the ceiling after every call. One genuine defect (late refill) is a recorded known finding with a weaker envelope that still bounds it."),
+ "C11": ("seeded DST: warm-up, then blackout / ack blackout / heavy loss / x10 RTT step, then heal; bounded-liveness oracles on probe packets of every mode, on quiescence and on the allowed rate", A,
+         "After the last fault, probes of every mode are delivered, every Reliable packet is delivered and the senders drain within T_live; with a standing backlog the allowed rate has left the s/64 floor after 600 s; a call that never returns is a violation too."),
+ "C14": ("seeded DST of the rate computer alone (World U) under arbitrary feedback histories plus real histories from World A; independent RFC 5348 bound evaluator on every rate update", "World U (real SendRateComp/RecvRateSet driven directly) and World A",
+         "On every feedback: RTT EWMA 0.9/0.1, ceiling and s/64 floor, throughput-equation bound once loss is reported, halving rule when leaving slow start, at-most-doubling in slow start; on every no-feedback expiry: never up, at most halved; between events the rate does not move."),
+ "C15": ("seeded DST with twin runs: identical plan with and without extra forged / replayed / re-packed ack frames; oracle = equality of the sender's emitted bytes and probe at every call", A,
+         "Same seed in both runs so nonces and fates coincide; any divergence of the sender's wire output or of its RTT, RTO, rate, loss, timer, queue and window state is a violation."),
+ "C19": ("seeded DST under a layout-checking global allocator with per-endpoint live-byte accounting; teardown oracle", A,
+         "Every deallocation's Layout is compared with the allocation's (header in front of each block); after dropping every endpoint of a run the bytes they allocated must all have been released."),
 }
 
 NOT_APPLICABLE = {
